@@ -6,6 +6,9 @@ ALL = ["C%02d" % i for i in range(1, 21)]
 
 # property -> (technique, decided clauses (short), not decided / assumptions)
 CLAIMED = {
+ "C07": ("typestate / transition-table analysis: field encapsulation, CAS-source tables, dominance, path-sensitive status-set tracking, call-graph reachability (go/ssa + VTA)",
+         "C07.1 status/didCloseNotify encapsulated and atomic-only; C07.2 all 12+ transition sites: closing states entered only by CAS from explicit (or loaded, non-closed) sources, closed states never left without redial, blind stores only where the path owns the state; C07.3 Ok only after accept/dial hooks (incl. callback/dialWithRetry composition); C07.4 close-notify once; C07.5/9 write gate {Ok}|(ActiveClosing & Reply) and sentinel refusal; C07.6 index insert after hooks, delete on both close paths, SetID order; C07.7 takeover: nothing that may reach hub.delete after the new session is stored; C07.8 disconnect hook exactly once per close path and no other caller; C07.10 read gates",
+         "conformance of whole histories to the state machine; SetID collision policy; the residual race of a passively disconnecting old session deleting a re-used id; timing"),
  "C20": ("static reset-completeness + pool dominance/must-pass analysis over go/ssa",
          "C20.1 every field of Message, handlerCtx, Args, XferPipe, ByteBuffer, socket is reset to its default on every path of the reset function (a new field without reset fails by construction); C20.2 each sync.Pool has the reset on its only Put or only Get side; C20.3 getContext = clean then reInit on all paths, reInit installs fresh swap + session",
          "user-defined fields of pooled controller structs (by design); value semantics of the called sub-reset methods beyond their own C20.1 instance; exempt fields listed with reasons in rules_c20.go"),
